@@ -18,7 +18,8 @@ const (
 // control attributes.
 type URL url.URL
 
-var escapeRegexp = regexp.MustCompile(`^(.+?)://(.*?)@(.*?)/(.*?)$`)
+// user info and host cannot contain slashes.
+var escapeRegexp = regexp.MustCompile(`^(.+?)://([^/]*?)@([^/]*?)/(.*?)$`)
 
 // ParseURL parses a RTSP URL.
 func ParseURL(s string) (*URL, error) {
